@@ -91,19 +91,40 @@ Proof. exact run_uses_first_capable. Qed.
 Print Assumptions C16_run_uses_first_capable.
 
 (* "most recent self-signature": with signatures stored in creation order (SorteDeque) the flags of a subkey are those of a
-   qualifying binding signature of maximal creation time; likewise for the self-signature of a user id *)
+   qualifying binding signature of maximal creation time; for a user id see C16_selfsig_most_recent below *)
 Theorem C16_flags_most_recent : forall sigs f, StronglySorted by_created sigs -> flags_sub sigs = FOk f ->
   exists s, In s sigs /\ s_qual s = true /\ s_flags s = f /\
             forall s', In s' sigs -> s_qual s' = true -> s_created s' <= s_created s.
 Proof. exact flags_most_recent. Qed.
 Print Assumptions C16_flags_most_recent.
 
+(* PGPUID.selfsig (repair 812bc0f): the flags of a user id are those of a CERTIFICATION issued by the key, of maximal creation time
+   among those; none when the key has issued no certification on it *)
 Theorem C16_selfsig_most_recent : forall u, StronglySorted by_created (u_sigs u) ->
-  (exists s, In s (u_sigs u) /\ s_qual s = true /\ selfsig_flags u = s_flags s /\
-             forall s', In s' (u_sigs u) -> s_qual s' = true -> s_created s' <= s_created s)
-  \/ ((forall s, In s (u_sigs u) -> s_qual s = false) /\ selfsig_flags u = 0).
+  (exists s, In s (u_sigs u) /\ s_qual s = true /\ s_cert s = true /\ selfsig_flags u = s_flags s /\
+             forall s', In s' (u_sigs u) -> s_qual s' = true -> s_cert s' = true -> s_created s' <= s_created s)
+  \/ ((forall s, In s (u_sigs u) -> s_qual s = true -> s_cert s = false) /\ selfsig_flags u = 0).
 Proof. exact selfsig_most_recent. Qed.
 Print Assumptions C16_selfsig_most_recent.
+
+(* a signature that is not a certification (a certification revocation, an attestation) does not change the flags of the user id,
+   wherever it stands and whatever KeyFlags subpacket it carries *)
+Theorem C16_selfsig_ignores_noncert : forall ids l1 x l2, s_cert x = false ->
+  selfsig_flags {| u_ids := ids; u_sigs := l1 ++ x :: l2 |} = selfsig_flags {| u_ids := ids; u_sigs := l1 ++ l2 |}.
+Proof. exact selfsig_ignores_noncert. Qed.
+Print Assumptions C16_selfsig_ignores_noncert.
+
+(* the rule before repair 812bc0f (newest signature of ANY type by the key) is refuted end to end: an identity certified for signing
+   and then revoked - the key signs, the old rule refused (the revocation has no flags); and a revocation carrying KeyFlags {Sign}
+   over a certification without it - the key refuses, the old rule signed *)
+Theorem C16_selfsig_old_refuted :
+  (forall fc fr, StronglySorted by_created (cert_then_rev fc fr)) /\
+  selfsig_flags {| u_ids := [97]; u_sigs := cert_then_rev SIGN 0 |} = SIGN /\
+  selfsig_flags_old {| u_ids := [97]; u_sigs := cert_then_rev SIGN 0 |} = 0 /\
+  perform (rev_key SIGN 0) OSign None = Run 0 false /\ perform_old_selfsig (rev_key SIGN 0) OSign None = NoUsage /\
+  perform (rev_key 0 SIGN) OSign None = NoUsage /\ perform_old_selfsig (rev_key 0 SIGN) OSign None = Run 0 false.
+Proof. exact selfsig_old_refuted. Qed.
+Print Assumptions C16_selfsig_old_refuted.
 
 Theorem C16_flags_sub_crash_iff : forall sigs, flags_sub sigs = FCrash CrashNoBinding <-> forall s, In s sigs -> s_qual s = false.
 Proof. exact flags_sub_crash_iff. Qed.
